@@ -1,7 +1,7 @@
 #!/bin/bash
 # like try_mutant.sh but on the scratch worktree /tmp/repo_dev2 (so /repo stays untouched)
 patch="$1"; shift
-W=/tmp/repo_dev2
+W=${VERIF_DEVWT:-/tmp/repo_dev2}
 cd $W && git checkout -q -- . && git clean -fdq && git apply "$patch" || { echo "patch does not apply"; exit 2; }
 cd /verif
 for id in "$@"; do
